@@ -9,7 +9,7 @@ ops:
 * `spaces <name>…`                                  the store spaces the gov keeper knows
 * `bech <str-hex>`                                  `sdk.AccAddressFromBech32`       → `ok:<bytes-hex>` | `err`
 * `fold <a-hex> <b-hex>`                            `strings.EqualFold`             → `true` | `false`
-* `call <msg> <gov-hex> <auth-hex> <payloadOk> <chain>`   one routed message → the stage it ends in
+* `call <msg> <gov-hex> <auth-hex> <payloadOk> <chain> <govOk> <non-empty list fields>`   one routed message → the stage it ends in
 * `casreset`                                        empty scratch stores
 * `cas <gov-hex> <auth-hex> <space:key:old:new>…`   one MsgUpdateStore through its branch
 * `prop <gov-hex> m <auth-hex> <entry>… m …`        a passed proposal with several MsgUpdateStore messages
@@ -25,9 +25,10 @@ def toStr (s : String) : Str := s.toList.map Char.toNat
 
 def unhexS (w : String) : Option Str := (unhexStr w).map toStr
 
-def mkEnv (cfg : AddrCfg) (gov : Str) : Env :=
+def mkEnv (cfg : AddrCfg) (gov : Str) (lists : List String := []) (good : Bool := true) : Env :=
   { cfg := cfg, gov := gov, modAddr := fun _ => [], field := fun _ => [], otherS := fun _ => [],
-    otherB := fun _ => false, callB := fun _ => false, otherH := fun _ => none }
+    otherB := fun _ => false, callB := fun _ => false, otherH := fun _ => none,
+    listNonEmpty := fun f => lists.contains f, payloadGood := good, clob := fun _ => none }
 
 /-- anything after a guard "takes effect": the work changes the state and reports success -/
 def world (routeOk : Bool) : World Nat :=
@@ -83,10 +84,10 @@ def step (st : St) (line : String) : St × String :=
     match unhexS a, unhexS b with
     | some a, some b => (st, toString (foldEq a b))
     | _, _ => (st, "bad-op")
-  | ["call", msg, govH, authH, pOk, chain] =>
+  | ["call", msg, govH, authH, pOk, chain, govOk, lists] =>
     match routeOf C16Sem.services C16Sem.registrations msg, unhexS govH, unhexS authH with
     | some (T, m), some gov, some auth =>
-      let r := routedStage prog C16Sem.msgInfos (mkEnv st.cfg gov) auth (world (C16Sem.routes.contains chain)) (pOk == "1") T m msg 0
+      let r := routedStage prog C16Sem.msgInfos (mkEnv st.cfg gov (if lists == "-" then [] else lists.splitOn ",") (govOk == "1")) auth (world (C16Sem.routes.contains chain)) (pOk == "1") T m msg 0
       (st, match r with
         | (.authorityFormat, _) => "rejected:authority-format"
         | (.payload, _) => "rejected:payload"
